@@ -85,6 +85,8 @@ func baseEnv(host string, writable bool) envDef {
 			{"tglob", "", true, strp("tu"), []string{"admin"}, true},
 			{"tglobnouser", "", true, nil, []string{"admin"}, true},
 			{"tglobnosub", "", false, strp("tu"), []string{"admin"}, true},
+			{"tnoexp", "g1", false, strp("tu"), []string{"admin"}, false},
+			{"tglobnoexp", "", true, strp("tu"), []string{"admin"}, false},
 		},
 	}
 }
@@ -127,6 +129,8 @@ func baseCreds(host string) []cred {
 		bearerCred("tglobnosub", "token-out", "tglobnosub", never),
 		bearerCred("tnouser", "token-out", "tnouser", never),
 		bearerCred("texp", "token-out", "texp", never),
+		bearerCred("tnoexp", "token-out", "tnoexp", never),
+		bearerCred("tglobnoexp", "token-out", "tglobnoexp", never),
 		bearerCred("tpres", "token-out", "tpres", never),
 		bearerCred("tbaduser", "token-out", "tbaduser", never),
 		bearerCred("tadm2", "token-out", "tadm2", g2admin),
